@@ -28,9 +28,10 @@ const (
 	KStruct
 	KPtr
 	KIface
+	KCustom
 )
 
-var kindNames = []string{"bool", "uint", "int", "float", "str", "bytes", "barr", "u256", "time", "slice", "arr", "map", "struct", "ptr", "iface"}
+var kindNames = []string{"bool", "uint", "int", "float", "str", "bytes", "barr", "u256", "time", "slice", "arr", "map", "struct", "ptr", "iface", "custom"}
 
 func (k Kind) String() string { return kindNames[k] }
 
@@ -77,6 +78,7 @@ type Schema struct {
 	Elem   *Schema // slice / array element, map value, pointer target
 	Key    *Schema
 	Fields []Field
+	Fixed  int    // custom: the only payload length the type accepts (-1: any)
 	Den    string // interface: denotation of the alternatives' codes
 	Alts   []Alt
 	GoType reflect.Type
@@ -156,6 +158,12 @@ func (s *Schema) SExp() string {
 		return b.String()
 	case KPtr:
 		return fmt.Sprintf("(ptr %s)", s.Elem.SExp())
+	case KCustom:
+		if s.Fixed < 0 {
+			return fmt.Sprintf("(custom %s any)", codeText(s.Code))
+		}
+
+		return fmt.Sprintf("(custom %s %d)", codeText(s.Code), s.Fixed)
 	case KIface:
 		var b strings.Builder
 		b.WriteString("(iface " + s.Den)
@@ -245,7 +253,7 @@ func fieldsNonEmpty(fs []Field) bool {
 
 func (s *Schema) IsKey() bool {
 	switch s.K {
-	case KBool, KUint, KInt, KStr, KByteArr:
+	case KBool, KUint, KInt, KStr, KByteArr, KCustom:
 		return true
 	case KArray:
 		return !(s.Rules.AutoSort && s.Rules.Lex) && s.Elem.IsKey()
@@ -288,7 +296,7 @@ func (s *Schema) startsWith(den string, code uint32) bool {
 }
 
 func (s *Schema) ptrTarget() bool {
-	return s.K == KStruct || s.K == KArray || s.K == KByteArr || s.K == KTime
+	return s.K == KStruct || s.K == KArray || s.K == KByteArr || s.K == KTime || s.K == KCustom
 }
 
 // WF mirrors `Hive.Serix.Ty.wf`.
@@ -300,7 +308,7 @@ func (s *Schema) WF() bool {
 		return s.W == 1 || s.W == 2 || s.W == 4 || s.W == 8
 	case KFloat:
 		return s.W == 4 || s.W == 8
-	case KByteArr:
+	case KByteArr, KCustom:
 		return codeWf(s.Code)
 	case KSlice, KArray:
 		return s.Elem.WF()
